@@ -48,6 +48,15 @@ RadiiAgree(A, s1, s2, tol) ==
                                   \/ (Abs(s1.radii[k][1] - s2.radii[k][1]) <= tol + 2
                                       /\ Abs(s1.radii[k][2] - s2.radii[k][2]) <= tol + 2))
 
+(* arc flags are not coordinates either: the large-arc flag is invariant, the sweep flag flips exactly  *)
+(* under orientation-reversing maps (negative determinant) - no tolerance applies to them              *)
+FlagsAgree(A, s1, s2) ==
+  /\ Len(s1.flags) = Len(s2.flags)
+  /\ \A k \in 1..Len(s1.flags) :
+        /\ s1.flags[k][1] = s2.flags[k][1]
+        /\ (IF A[1] * A[4] - A[2] * A[3] < 0 THEN s1.flags[k][2] # s2.flags[k][2]
+                                               ELSE s1.flags[k][2] = s2.flags[k][2])
+
 IsIdentity(A) == A = <<SA, 0, 0, SA, 0, 0>>
 
 (***************************************************************************)
@@ -96,6 +105,7 @@ Judge(c) ==
              ELSE IF c.expect = "identity" THEN "BAD:identical-shapes-not-matched" ELSE "ok:none")
   ELSE IF ~MapsOnto(c.A, c.s1, c.s2, c.tol) THEN "BAD:reported-transform-does-not-map-s1-onto-s2"
   ELSE IF ~RadiiAgree(c.A, c.s1, c.s2, c.tol) THEN "BAD:reported-transform-changes-arc-radii"
+  ELSE IF ~FlagsAgree(c.A, c.s1, c.s2) THEN "BAD:reported-transform-maps-arcs-onto-other-arcs"
   ELSE IF c.expect = "identity" /\ ~IsIdentity(c.A) THEN "BAD:identical-shapes-not-identity"
   ELSE "ok:sound"
 
